@@ -5,6 +5,7 @@ import (
 	"encoding/json"
 	"fmt"
 	"reflect"
+	"runtime/debug"
 	"strings"
 	"testing"
 	"unicode/utf8"
@@ -57,12 +58,15 @@ func (s side) toLocal(b []byte) []byte {
 	return s.local(b)
 }
 
-const kfEmitUnpopulated = "KF-json-emitunpopulated-proto3-optional"
+const (
+	kfEmitUnpopulated = "KF-json-emitunpopulated-proto3-optional"
+	kfMapKeyPanic     = "KF-slowpath-map-key-wrong-wiretype-panic"
+)
 
 // dropNullSynthetic removes from vb (JSON value written by the editions member) the "name": null
 // entries of fields that are proto3 `optional` fields in md (the proto3 member's descriptor) and
 // that va lacks: exactly the shape of the registered finding. It returns how many it removed.
-func dropNullSynthetic(md protoreflect.MessageDescriptor, va, vb any) int {
+func dropNullSynthetic(md protoreflect.MessageDescriptor, res resolver, va, vb any) int {
 	oa, ok1 := va.(map[string]any)
 	ob, ok2 := vb.(map[string]any)
 	if !ok1 || !ok2 {
@@ -86,16 +90,35 @@ func dropNullSynthetic(md protoreflect.MessageDescriptor, va, vb any) int {
 			ma, _ := oa[key].(map[string]any)
 			mb, _ := ob[key].(map[string]any)
 			for k, x := range ma {
-				n += dropNullSynthetic(fd.MapValue().Message(), x, mb[k])
+				n += dropNullSynthetic(fd.MapValue().Message(), res, x, mb[k])
 			}
 		case fd.IsList() && fd.Message() != nil:
 			la, _ := oa[key].([]any)
 			lb, _ := ob[key].([]any)
 			for j := 0; j < len(la) && j < len(lb); j++ {
-				n += dropNullSynthetic(fd.Message(), la[j], lb[j])
+				n += dropNullSynthetic(fd.Message(), res, la[j], lb[j])
 			}
 		case fd.Message() != nil && !fd.IsMap():
-			n += dropNullSynthetic(fd.Message(), oa[key], ob[key])
+			n += dropNullSynthetic(fd.Message(), res, oa[key], ob[key])
+		}
+	}
+	// message-typed extension fields: "[full.name]": {…}
+	for key := range oa {
+		if !strings.HasPrefix(key, "[") || !strings.HasSuffix(key, "]") {
+			continue
+		}
+		xt, err := res.FindExtensionByName(protoreflect.FullName(key[1 : len(key)-1]))
+		if err != nil || xt.TypeDescriptor().Message() == nil {
+			continue
+		}
+		if xt.TypeDescriptor().IsList() {
+			la, _ := oa[key].([]any)
+			lb, _ := ob[key].([]any)
+			for j := 0; j < len(la) && j < len(lb); j++ {
+				n += dropNullSynthetic(xt.TypeDescriptor().Message(), res, la[j], lb[j])
+			}
+		} else {
+			n += dropNullSynthetic(xt.TypeDescriptor().Message(), res, oa[key], ob[key])
 		}
 	}
 	return n
@@ -173,8 +196,8 @@ func compareMessages(what string, a, b side, ma, mb protoreflect.Message, docs f
 		if e1 != nil || e2 != nil {
 			return fmt.Errorf("%s: protojson output is not JSON: %v / %v", what, e1, e2)
 		}
-		if emit && !reflect.DeepEqual(va, vb) && a.md.ParentFile().Syntax() == protoreflect.Proto3 {
-			if vb2, _ := jsonValue(b.toCanon(jb)); dropNullSynthetic(a.md, va, vb2) > 0 && reflect.DeepEqual(va, vb2) && pbt.ExcludeKnown(kfEmitUnpopulated) {
+		if emit && !reflect.DeepEqual(va, vb) { // proto3 optional fields may sit in any message of the tree (proto2 files import proto3 ones)
+			if vb2, _ := jsonValue(b.toCanon(jb)); dropNullSynthetic(a.md, a.res, va, vb2) > 0 && reflect.DeepEqual(va, vb2) && pbt.ExcludeKnown(kfEmitUnpopulated) {
 				vb = vb2
 			}
 		}
@@ -204,7 +227,19 @@ func compareMessages(what string, a, b side, ma, mb protoreflect.Message, docs f
 
 // compareInput feeds one wire input to both members, then the JSON and text documents made from
 // the first member's result (as they are, and with the edits applied) to both members again.
-func compareInput(a, b side, wire []byte, edits []docEdit) error {
+func compareInput(a, b side, wire []byte, edits []docEdit) (err error) {
+	defer func() {
+		// registered finding: the reflection-based decoder overwrites the key of a map entry with an invalid
+		// Value when a second key record has the wrong wire type, and then panics in Value.MapKey
+		if r := recover(); r != nil {
+			stack := string(debug.Stack())
+			if fmt.Sprint(r) == "type mismatch: cannot convert nil to map key" && strings.Contains(stack, "proto.UnmarshalOptions.unmarshalMap") && pbt.ExcludeKnown(kfMapKeyPanic) {
+				err = nil
+				return
+			}
+			err = fmt.Errorf("PANIC on input %x: %v\n%s", wire, r, stack)
+		}
+	}()
 	ma, mb := a.new(), b.new()
 	ea := proto.UnmarshalOptions{Resolver: a.res}.Unmarshal(wire, ma.Interface())
 	eb := proto.UnmarshalOptions{Resolver: b.res}.Unmarshal(wire, mb.Interface())
